@@ -184,6 +184,47 @@ def skippable_first(g, kinds):
     return False
 
 
+def py_recorded(g, kinds):
+    """_tx_inh_by as a pure function of the final kinds: the early-exit walk of _add_reffered_classes over the
+    resolved body (aliases followed, one-element sequences / choices collapsed), reading documented kinds"""
+    rules = {r["name"]: r for r in g["rules"]}
+
+    def walk(n, acc):
+        k = n[0]
+        if k == "t":
+            return False
+        if k == "r":
+            y = resolve_alias(n[1], rules)
+            if kinds[y] != "match" and y not in acc:
+                acc.append(y)
+                return True
+            return False
+        if k == "seq":
+            for x in n[1]:
+                if walk(x, acc):
+                    return True
+            return False
+        if k == "alt":
+            added = False
+            for x in n[1]:
+                added = walk(x, acc) or added
+            return added
+        return walk(n[1], acc)
+    out = {}
+    for name, r in rules.items():
+        if kinds[name] != "abstract":
+            continue
+        b = norm(r["body"])
+        acc = []
+        if b[0] == "r":
+            y = resolve_alias(b[1], rules)
+            acc = [y] if kinds[y] != "match" else []
+        else:
+            walk(b, acc)
+        out[name] = acc
+    return out
+
+
 def tree_flat(t):
     if t[0] == "T":
         return t[1]
@@ -291,6 +332,7 @@ Definition show_case (g : list rule) (nu : nat) (trees : list tree) : string :=
       sjoin ";" (map (fun x => sjoin "," (map show_nat (inh s x))) (seq 0 nu)) ++ "|" ++
       sjoin ";" (map (fun k => sjoin "" (map (fun r => show_ob (isinstance n (inh s) k (Some r))) (seq 0 nu))
                              ++ show_ob (isinstance n (inh s) k None)) (seq 0 nu)) ++ "|" ++
+      (if inh_is_recorded g s then "R" else "r") ++ "|" ++
       (if forallb (fun x => match types s x, r_body (rule_of g x) with
                             | KAbstract, Body e => seq_ok (types s) e
                             | _, _ => true end) (seq 0 n) then "S" else "s") ++ "|" ++
@@ -739,12 +781,15 @@ def check_case(chk, c, failures, disagreements):
         back = {v: k for k, v in idx.items()}
         runs_ok = [run for run in o["runs"] if not run["error"]]
         i_vals = "@".join(run["dump"] for run in runs_ok)
-        m_vals = re.sub(r"#(\d+)\(", lambda m: back[int(m.group(1))] + "(", mv.split("|", 5)[5]) if mv.count("|") >= 5 else mv
+        m_vals = re.sub(r"#(\d+)\(", lambda m: back[int(m.group(1))] + "(", mv.split("|", 6)[6]) if mv.count("|") >= 6 else mv
+        m_rec = mv.split("|", 6)[4] if mv.count("|") >= 6 else "?"
         # the 5th field ties the finding's classifier to the theorem's hypothesis: seq_ok of every abstract body (Coq)
         # against skippable_first on the grammar source (Python)
-        impl_s = "|".join([str(o.get("passes")), i_k, i_inh, i_is, "s" if skf else "S", i_vals])
-        model_s = "|".join(mv.split("|", 5)[:5] + [m_vals]) if mv.count("|") >= 5 else mv
-        if mv.count("|") >= 5:
+        # 5th field: the model's lists equal the declarative `recorded` (pure walk on final kinds) - required whenever
+        # no cycle runs through abstract rules; 6th field: seq_ok (Coq) against skippable_first (Python)
+        impl_s = "|".join([str(o.get("passes")), i_k, i_inh, i_is, m_rec if cyc else "R", "s" if skf else "S", i_vals])
+        model_s = "|".join(mv.split("|", 6)[:6] + [m_vals]) if mv.count("|") >= 6 else mv
+        if mv.count("|") >= 6:
             np_ = mv.split("|", 1)[0]
             chk.stat("grammars resolved in %s passes" % (np_ if np_ in ("1", "2", "3") else ">=4"))
         chk.cov["disagreements_checked"] += 1
@@ -782,6 +827,14 @@ def check_case(chk, c, failures, disagreements):
     if bad_up:
         fail("textx_isinstance(%s object, %s) is True although %s is not reachable from %s through abstract rules"
              % (bad_up[0], bad_up[1], bad_up[0], bad_up[1]), impl=o["inh"])
+    # (g) without a cycle through abstract rules _tx_inh_by is exactly the early-exit walk over the final kinds
+    if not cyc and all(o["kinds"][n] == kinds[n] for n in names):
+        rec = py_recorded(g, kinds)
+        for n in names:
+            if kinds[n] == "abstract" and o["inh"][n] != rec[n]:
+                fail("_tx_inh_by of %s is %r, the walk over the final kinds gives %r" % (n, o["inh"][n], rec[n]), impl=o["inh"])
+                break
+        chk.stat("grammars whose _tx_inh_by is checked against the declarative walk")
     # per input: (b)(c) object classes, (d) documented value, (f) declared abstract class holds
     for text, run in zip(c["inputs"], o["runs"]):
         if run["error"]:
